@@ -81,3 +81,31 @@ Theorem c05_auth_request_shapes : forall send_nonce : bool,
   auth_request_shape SS256 send_nonce = (2, n, 2)%nat.
 Proof. exact auth_request_shapes. Qed.
 Print Assumptions c05_auth_request_shapes.
+
+(* ---- the challenge method as the operator wrote it ---- *)
+From V.Gen Require Wiring.
+
+(* A configured method that is neither "S256" nor "plain" (another letter case, a stray space or newline, an
+   algorithm name) starts no login: nothing is sent to the browser, in particular no verifier under a method name no
+   identity provider can check. *)
+Theorem c05_unknown_method_refused : forall sha256 m rnd,
+  m <> [] -> m <> s "S256" -> m <> s "plain" -> start_by_string sha256 m rnd = None.
+Proof. exact unknown_method_refused. Qed.
+Print Assumptions c05_unknown_method_refused.
+
+(* What is sent carries the verifier itself as the challenge only under the method "plain" (or if the verifier is a
+   fixed point of the S256 derivation). *)
+Theorem c05_verifier_in_clear_only_plain : forall sha256 m rnd st,
+  start_by_string sha256 m rnd = Some st -> st_challenge st = Some (st_verifier st) ->
+  m = s "plain" \/ rawurl_encode (sha256 (st_verifier st)) = st_verifier st.
+Proof. exact verifier_in_clear_only_plain. Qed.
+Print Assumptions c05_verifier_in_clear_only_plain.
+
+(* the switch of GenerateCodeChallenge REGENERATED from pkg/encryption/utils.go on this run is the model's: "plain"
+   returns the verifier, "S256" hashes it, every other string is an error *)
+Theorem c05_challenge_switch_pinned :
+  Wiring.code_challenge_switch =
+    [s "switch method"; s """plain"" => return codeVerifier, nil"; s """S256"" => shaSum := sha256.Sum256([]byte(codeVerifier))";
+     s "default => return """", fmt.Errorf(""unknown challenge method: %v"", method)"].
+Proof. vm_compute. reflexivity. Qed.
+Print Assumptions c05_challenge_switch_pinned.
